@@ -288,7 +288,7 @@ PROPS["C17"] = {
                  "C17_utf16_helper_never_out_of_fuel", "C17_automaton_accepts_only_scalar_encodings",
                  "C17_utf8_decoding_is_the_exact_inverse_of_encoding", "C17_modelled_codecs_emit_scalar_values"],
     "model_targets": ["Model/Decode.vo"],
-    "runs": [{"level": "decode", "args_quick": ["--n", "1500"], "args_thorough": ["--n", "60000"]}],
+    "runs": [{"level": "decode", "args_quick": ["--n", "1500"], "args_thorough": ["--n", "60000", "--exhaustive", "1"]}],
     "search": {"level": "decode", "args": ["--n", "12000"]},
     "rule": "for every resolvable encoding: random, re-encoded (sometimes corrupted / truncated), corpus and UTF-8 edge-case byte strings "
             "(overlongs, surrogates, U+10FFFF, stray continuations) through the public helper in strict / ignore / replace x test-only, "
@@ -302,7 +302,9 @@ PROPS["C17"] = {
             "pending-byte / pending-surrogate state); the UTF-8 and UTF-16 ENCODER models against String contents, utils::encode and "
             "str::encode_utf16, and utf8_chars against str::chars, on corpus text and boundary code points of every encoded length; and "
             "Model/Codecs.v BY ENCODING NAME (what DETECTFULL decodes with) against the helper in strict / test-only / chunk mode for every "
-            "supported name -- every name outside the 8 CJK codecs must be modelled; non-trivial = successful decodes",
+            "supported name -- every name outside the 8 CJK codecs must be modelled; thorough tier only: EVERY byte string of length 1 and 2 (and the 3- / 4-byte rows "
+            "where overlong forms, surrogates and the upper limit sit) through the UTF-8 and UTF-16 models, every surrogate-boundary pair of code units, and the "
+            "encoders on every 257th scalar value plus all length boundaries; non-trivial = successful decodes",
     "assumptions": ["clause (a) 'helper = codec' is definitional in the model (two copies of one loop): its tie is the decode correspondence",
                     "CJK and UTF-16 decoders are compared helper-vs-crate only (not modelled)"],
     "trusted": [],
